@@ -81,6 +81,17 @@ pub fn c08(kind: &str, req: &Value) -> Result<Value, String> {
                 Err(e) => json!({"r": "err", "e": e, "reads": reads}),
             })
         }
+        "select" => {
+            let incoming = pdu(&req["incoming"])?;
+            match ruma_state_res::event_auth::auth_types_for_event(&incoming.kind, &incoming.sender, incoming.state_key.as_deref(), &incoming.content, &rules.authorization) {
+                Ok(v) => {
+                    let mut pairs: Vec<Vec<String>> = v.into_iter().map(|(t, k)| vec![t.to_string(), k]).collect();
+                    pairs.sort();
+                    Ok(json!({"r": "ok", "pairs": pairs}))
+                }
+                Err(e) => Ok(json!({"r": "err", "e": e})),
+            }
+        }
         _ => Err(format!("unknown c08 op {kind}")),
     }
 }
